@@ -16,7 +16,7 @@ pub mod walk;
 
 use std::{fmt, sync::Arc};
 
-pub use corpus::{corpus, extra};
+pub use corpus::{by_path_failures, corpus, extra, ByPathFailure};
 pub use drive::{Api, BgzfRead, Opts, read_log, read_log_bufread};
 pub use render::*;
 
